@@ -23,6 +23,7 @@ from verif.reglang.alphabet import MARK, alphabet
 
 EMITTER = "octave_mcp.core.emitter"
 LEXER = "octave_mcp.core.lexer"
+PARSER = "octave_mcp.core.parser"
 
 PREV_CTX = [":", ",", "[", " "]  # character before a value in canonical text: '::' ',' '[' indent
 FOLLOW = "\n,] "  # character after a value: newline, comma, bracket, ' // comment'
@@ -232,6 +233,67 @@ def ob_needs_quotes_shape(ctx: Ctx) -> Outcome:
         s = bad.witness_str()
         return Outcome.refuted("dfa", [_witness_for_value(s, f"needs_quotes({s!r}) is False but the text is a literal / contains a control character")], count=3)
     return Outcome.ok("declist+dfa", count=3, clauses=clauses, escape_chain=chain)
+
+
+def probe_holographic_strings() -> tuple[bool, str]:
+    """concrete stand-in for ob_holographic_chain: holographic patterns whose strings need every escape are canonical fixed points"""
+    from octave_mcp.core.emitter import emit
+    from octave_mcp.core.parser import parse
+
+    bad = []
+    for body in ("a\\\\n", "a\\\\t", 'a\\"b', "a\\nb", "a\\tb", "tail\\\\", "plain", "é"):
+        for shape in ('K::["{b}"∧REQ]', 'K::["{b}"∧REQ→§SELF]', 'K::["x"∧CONST["{b}"]]'):
+            t = "===D===\n" + shape.replace("{b}", body) + "\n===END===\n"
+            try:
+                e1 = emit(parse(t))
+            except Exception:  # noqa: BLE001
+                continue
+            try:
+                e2 = emit(parse(e1))
+            except Exception as e:  # noqa: BLE001
+                bad.append(f"{t!r} is written as {e1!r}, which is refused: {type(e).__name__}")
+                continue
+            if e1 != e2:
+                bad.append(f"{t!r} is written as {e1!r}, then as {e2!r}")
+    return bool(bad), "; ".join(bad[:3]) or "holographic patterns with escaped strings are fixed points"
+
+
+def ob_holographic_chain(ctx: Ctx) -> Outcome:
+    """The text a holographic value is written with (HolographicValue.raw_pattern, emitted verbatim) is built by
+    Parser._reconstruct_pattern_from_tokens(token_slice, escape_strings=True): its STRING branch must apply the
+    EMITTER's escape chain (read from both sources and compared) before quoting, so that the R obligation
+    unescape∘escape = id carries over to strings inside patterns; and _try_parse_holographic must store that call's
+    result as raw_pattern. Shape not recognised => the concrete probe decides."""
+    from verif.common import shape_verdict
+
+    problems = []
+    try:
+        chain, _ = emit_escape_chain()
+        fn = extract.find_def(PARSER, "Parser._reconstruct_pattern_from_tokens")
+        caller = extract.find_def(PARSER, "Parser._try_parse_holographic")
+    except ExtractionError as e:
+        return shape_verdict("ast-shape", [str(e)], probe_holographic_strings, count=1, replay={"runner": "props.lexical:probe_holographic_strings", "args": {}})
+    found = None
+    for n in ast.walk(fn):
+        if isinstance(n, ast.If) and ast.unparse(n.test) == "token.type == TokenType.STRING":
+            body = n.body
+            src = [ast.unparse(b) for b in body]
+            if len(body) == 3 and src[0] == "text = token.value" and isinstance(body[1], ast.If) and ast.unparse(body[1].test) == "escape_strings" and len(body[1].body) == 1 and not body[1].orelse and isinstance(body[1].body[0], ast.Assign) and ast.unparse(body[1].body[0].targets[0]) == "text" and src[2] == "parts.append(f'\"{text}\"')":
+                try:
+                    found = declist.replace_chain(body[1].body[0].value, "text")
+                except ExtractionError as e:
+                    problems.append(f"_reconstruct_pattern_from_tokens: {e}")
+            break
+    if found is None and not problems:
+        problems.append("_reconstruct_pattern_from_tokens: STRING branch is not `text = token.value; if escape_strings: text = text.replace(...)...; parts.append(f'\"{text}\"')`")
+    elif found is not None and found != chain:
+        problems.append(f"_reconstruct_pattern_from_tokens escapes with {found}, the emitter with {chain}")
+    kws = [ast.unparse(k.value) for c in ast.walk(caller) if isinstance(c, ast.Call) and ast.unparse(c.func) == "HolographicValue" for k in c.keywords if k.arg == "raw_pattern"]
+    if kws != ["self._reconstruct_pattern_from_tokens(token_slice, escape_strings=True)"]:
+        problems.append(f"_try_parse_holographic stores raw_pattern = {kws}, expected the escaped reconstruction of the same token slice")
+    if problems:
+        return shape_verdict("ast-shape", problems, probe_holographic_strings, count=2, replay={"runner": "props.lexical:probe_holographic_strings", "args": {}})
+    return Outcome.ok("ast-shape", count=2, chain=chain)
 
 
 @lru_cache(maxsize=None)
